@@ -19,10 +19,14 @@ ASSUMPTIONS = ['tm_exact (vmon/oracles/tm.py) is the reference; it is re-validat
 N = {'quick': 3000, 'thorough': 40000}     # cases per shard
 SHARDS = {'quick': 16, 'thorough': 32}
 ASPECTS = ('F',)
+REQUIRED_COUNTERS = ['branch:isg-auto-zone', 'branch:isg-central-meridian', 'branch:north-false-northing', 'branch:utm-auto-zone']
 
 
 def plan(tier, seed):
-    return [{'n': N[tier]} for _ in range(SHARDS[tier])]
+    specs = [{'n': N[tier]} for _ in range(SHARDS[tier])]
+    if tier == 'thorough':
+        specs += [{'n': 0, 'lattice': [i, 8], 'ell': ['grs80', 'ans', 'intl24', 'wgs84'][i % 4]} for i in range(8)]
+    return specs
 
 
 def run_shard(spec, ctx):
@@ -31,6 +35,10 @@ def run_shard(spec, ctx):
     reach = tmwork.reach_setup(ns)
     rnd = random.Random('%s-%s-%s' % (ID, spec['seed'], spec['shard']))
     try:
+        if spec.get('lattice'):
+            for case in tmwork.lattice_cases(spec['lattice'][0], spec['lattice'][1], spec['ell']):
+                tmwork.judge_forward(ns, ctx, case, ASPECTS)
+            ctx.sample({'kind': '1x1 degree lattice x 3 zone modes', 'part': spec['lattice'], 'ell': spec['ell']})
         for i in range(spec['n']):
             case = tmwork.gen_geo_case(rnd)
             if i < 2:
@@ -39,6 +47,12 @@ def run_shard(spec, ctx):
     finally:
         reach.stop()
     ctx.info['lines_reached'] = reach.summary()
+    # branches the property names: automatic ISG zone, ISG central meridian, northern false northing, automatic UTM zone
+    for label, marker in (('isg-auto-zone', 'subzone = int((amgzone'), ('isg-central-meridian', 'amgzone = int(str(zone)[:2])'),
+                          ('north-false-northing', 'falsenorth = 0'), ('utm-auto-zone', '1.5 * prj.zonewidth))) / prj.zonewidth')):
+        hit = reach.branch_hit(ns.convert.geo2grid, marker)
+        if hit is None or hit:
+            ctx.count('branch:' + label)
 
 
 def replay(case, ctx):
